@@ -92,3 +92,16 @@ theorem grw_mtdn_bgv : ∃ out : RnsPoly, c05u_BgvDivOfNtt nv_level nv_c0 (out.e
     ⟨nv_toolOK_fields.1, nv_toolOK_fields.2.1, nv_toolOK_fields.2.2.1, nv_toolOK_fields.2.2.2⟩
     ⟨nv_bgvOK_fields.1, nv_bgvOK_fields.2.1, nv_bgvOK_fields.2.2.1, nv_bgvOK_fields.2.2.2⟩ (by decide +kernel) (by decide +kernel) (by decide +kernel) nv_c0_canon
   exact ⟨out, h⟩
+
+/-- `gr_sm_mrq_eq` applies: a 4-component input (|Bsk| = 3, plus the m̃ component) and a zero destination -/
+theorem grw_sm_eq : GenR.sm_mrq (flatP #[#[1,2,3,4],#[5,6,7,8],#[9,10,11,12],#[13,14,15,16]]) (flatP #[#[0,0,0,0],#[0,0,0,0],#[0,0,0,0]])
+      nv_tool.baseBsk.size nv_tool.baseBsk.base.toList nv_tool.n nv_tool.mTilde nv_tool.negInvProdQModMt nv_tool.prodQModBsk.toList nv_tool.invMtModBsk.toList
+    = (nv_tool.smMrq #[#[1,2,3,4],#[5,6,7,8],#[9,10,11,12],#[13,14,15,16]]).map flatP := by
+  have hs : nv_tool.baseBsk.size = 3 := nv_tool_shape.2.2.2.1
+  have hn : nv_tool.n = 4 := nv_tool_shape.1
+  refine gr_sm_mrq_eq nv_tool _ _ (by rw [hs]; rfl) ?_ (by rw [hs]; rfl) ?_ (by decide +kernel) ?_ (by decide +kernel) (by decide +kernel) (by decide +kernel)
+  · intro i hi; rw [hs] at hi; rw [hn]; interval_cases i <;> rfl
+  · intro i hi; rw [hs] at hi; rw [hn]; interval_cases i <;> rfl
+  · intro x hx
+    have : nv_tool.prodQModBsk.toList.all (fun y => decide (y < 2^64)) = true := by decide +kernel
+    exact of_decide_eq_true (List.all_eq_true.mp this x (by simpa using hx))
